@@ -382,8 +382,7 @@ func init() {
 			"run-time half: every acyclic atom set of size <= 1 (thorough <= 2; quick a quarter of the pairs) and every acyclic parameter graph is compiled and executed (CircularDeps(), GetParam and Get of everything) against the reference model",
 		},
 		BudgetQuick: 200 * time.Second, BudgetThorough: 1200 * time.Second,
-		Prepare:     PrepareUniverse,
-		CaseTimeout: 900 * time.Second,
+		Prepare: PrepareUniverse,
 		Run: func(w *W) {
 			k := 3
 			if !w.Env.Quick() {
